@@ -1,6 +1,8 @@
 /- Line-protocol verbs for the response pipeline (C02, C12, C13). -/
 import FwdVerif.Model.Resp
 import FwdVerif.Model.Flush
+import FwdVerif.Model.RespStatus
+import FwdVerif.Model.RespRelay
 import FwdVerif.Driver.Req
 
 namespace FwdVerif
@@ -70,6 +72,26 @@ def handle : List String → String
       | .badGateway => "badgateway"
       | .ok r => s!"ok {r.minor} {r.status} {hexOfBytes r.reason} {encodeFraming r.framing} {encodeBody r.body} {ofBool r.keepAlive} {Req.encodeFieldMap r.fields}"
     | _, _ => "bad-op"
+  -- `statusline ho=<0|1> line=<hex>`: the status line the client is sent (with its CRLF) or `bad`
+  | "statusline" :: toks =>
+    match boolOf (kvD toks "ho" "0"), bytesOfHex (kvD toks "line" "_") with
+    | some ho, some line =>
+      match StatusLine.clientLine (fun _ => []) ho line with
+      | some l => hexOfBytes l
+      | none => "bad"
+    | _, _ => "bad-op"
+  -- `relay read=<ms> readheader=<ms> idle=<ms> write=<ms> times=<t1,t2,…>`: write deadline of the
+  -- response relay (`none` or ms), whether the whole response reaches a prompt client, writes relayed
+  | "relay" :: toks =>
+    match natOf (kvD toks "read" "0"), natOf (kvD toks "readheader" "0"), natOf (kvD toks "idle" "0"),
+          natOf (kvD toks "write" "0"), natList (kvD toks "times" "~") with
+    | some r, some rh, some i, some w, some ts =>
+      let L : Relay.Limits := { read := r, readHeader := rh, idle := i, write := w }
+      let dl := Relay.relayWriteDeadline L
+      let ws : List (Nat × Bytes) := ts.map fun t => (t, [])
+      let d := match dl with | none => "none" | some d => toString d
+      s!"{d} {ofBool (Relay.complete dl ws)} {Relay.relayed dl ws}"
+    | _, _, _, _, _ => "bad-op"
   | _ => "bad-op"
 
 end Resp
